@@ -84,7 +84,7 @@ def run(ctx):
     # ------------------------------------------------------------------ Engine A: protocol
     q = ctx.tier == "quick"
     to = 600 if q else 3000
-    scripts = ["FBfbFB", "FfRF", "SFRF", "FVFTF", "FSFRFF", "fVFbTfR", "FIB", "FIBfRFIB", "IVITI", "SsFf", "FfSfF"]
+    scripts = ["FBfbFB", "FfRF", "SFRF", "FVFTF", "FSFRFF", "fVFbTfR", "FIB", "FIBfRFIB", "IVITI", "SsFf", "FfSfF", "FVFTRF", "SVFTRFF", "VFTSRF", "FVSTRF", "FVRTRF", "fvFstrf"]
     if not q:
         scripts += ["IiVIiTI", "FBIVSFTFBI", "fFVvRrTtFf", "SFBIRFBI", "FFFRFFVFTF", "sSfFrRfF"]
     conds = []
